@@ -546,3 +546,34 @@ package proto
 //@   ensures r != nil && r.pos == 0 && r.end == len(b.Buf) && !r.failed && r.reliable {fresh-reader}
 //@   ensures forall k in 0..len(b.Buf) :: r.in[k] == b.Buf[k] {over-the-buffer}
 //@   ensures offset(b.Buf) == 0 ==> r.in == arrayof(b.Buf) {same-array}
+
+//@ -- batch append of instants to a Date32 column: every element goes through the Date32
+//@ -- conversion (not the 16-bit Date one), and the column grows by exactly len(vs)
+//@ contract (c *ColDate32) AppendArr(vs) props(C16,C20)
+//@   requires c != nil && each(vs, e, -2208988800 <= e.sec + e.off && e.sec + e.off < 10413792000)
+//@   modifies *c
+//@   ensures len((*c)) == old(len((*c))) + len(vs) {grows-by-the-batch}
+//@   ensures forall k in 0..old(len((*c))) :: (*c)[k] == old((*c)[k]) {earlier-rows-untouched}
+//@ callsite ToDate32
+//@   assert true {each-instant-goes-through-the-Date32-conversion}
+//@ nocall proto.ToDate
+//@ loop 0 (rangeindex)
+//@   invariant len(dates) == len(vs)
+//@ contract (c *ColDate) AppendArr(vs) props(C16,C20)
+//@   requires c != nil && each(vs, e, 0 <= e.sec + e.off && e.sec + e.off < 65536 * 86400)
+//@   modifies *c
+//@   ensures len((*c)) == old(len((*c))) + len(vs) {grows-by-the-batch}
+//@   ensures forall k in 0..old(len((*c))) :: (*c)[k] == old((*c)[k]) {earlier-rows-untouched}
+//@ callsite proto.ToDate
+//@   assert true {each-instant-goes-through-the-Date-conversion}
+//@ loop 0 (rangeindex)
+//@   invariant len(dates) == len(vs)
+//@ contract (c *ColDateTime) AppendArr(vs) props(C16,C20)
+//@   requires c != nil && each(vs, e, 0 <= e.sec && e.sec < 4294967296)
+//@   modifies c.Data
+//@   ensures len(c.Data) == old(len(c.Data)) + len(vs) {grows-by-the-batch}
+//@   ensures forall k in 0..old(len(c.Data)) :: c.Data[k] == old(c.Data[k]) {earlier-rows-untouched}
+//@ callsite proto.ToDateTime
+//@   assert true {each-instant-goes-through-the-DateTime-conversion}
+//@ loop 0 (rangeindex)
+//@   invariant len(dates) == len(vs)
